@@ -18,7 +18,8 @@ EXPLANATION = (
     'carries its formula, and extract() stores nothing into the original model; (C13.5) set_cell_value/get_cell_value write and read through the cells map (names and cells are '
     'separate copies in the extracted model), so the same input change has the same effect on both models; (C13.4) focus entries are taken from cells and from defined names, and the extracted model is compiled.'
     ' (C13.2) also: references to cells the model does not hold and defined names used in focused formulas; (C13.6) the terms extract() follows are those of the formula itself: own text, own sheet, nothing carried over between formulas of equal text.'
-    ' (C13.7) a witness workbook (two sheets, chains, ranges, names for cells and a range, names spelt in another case): for every focus list the model extracted by ModelCompiler.extract (as written, copy protocol included) agrees with the full model on every focused cell before and after the same edits; the original is unchanged.')
+    ' (C13.7) a witness workbook (two sheets, chains, ranges, names for cells and a range, names spelt in another case): for every focus list the model extracted by ModelCompiler.extract (as written, copy protocol included) agrees with the full model on every focused cell before and after the same edits; the original is unchanged.'
+    ' (C13.7) also range members that are 0 / FALSE / 0.0, edits and calculations before the extraction, cells of another sheet that the workbook does not store.')
 NOT_DECIDED = 'value equality after arbitrary input changes'
 TRUSTED = ['copy.deepcopy yields an independent object graph', 'workbook scenarios: pandas storage of range arrays as row-major rows, numpy on Python numbers (IEEE results, 64-bit integer wrap), dateutil.parser.parse rejecting texts that are no dates, openpyxl address arithmetic, inspect.signature built from the FunctionDef', 'copy protocol: __getstate__ / __setstate__ honoured by deepcopy']
 
